@@ -2,7 +2,7 @@ package main
 
 import (
 	"verif/harness/core"
-	_ "verif/harness/props/conc"
+	_ "verif/harness/props/refs"
 )
 
 func main() { core.Main() }
